@@ -174,6 +174,10 @@ def str_eq(l, r):
     if isinstance(l, str) and isinstance(r, str):
         return l == r
     s, c = (l, r) if is_symstr(l) else (r, l)
+    if isinstance(s, Hole) and "value" in s.props:
+        return str_eq(s.props["value"], c) if is_symstr(c) else s.props["value"] == c
+    if isinstance(s, Hole) and isinstance(c, str) and c in s.props.get("not_in", ()):
+        return False
     if not isinstance(c, str):
         if is_symstr(c):
             if repr(as_tmpl(s)) == repr(as_tmpl(c)):
@@ -237,8 +241,28 @@ def identity(l, r):
 SYM_NOID = (SInt, SBool, Tmpl, Hole, Join, Fn, Fold)
 
 
+def bind_hole(h, options):
+    """case split: the unknown string equals one of `options` (then it is bound to it) or
+    none of them.  Returns the bound value or None."""
+    if "value" in h.props:
+        return h.props["value"] if h.props["value"] in options else None
+    opts = [o for o in sorted(options) if o not in h.props.get("not_in", ())]
+    c = ctx()
+    k = c.choose(len(opts) + 1)
+    if k == len(opts):
+        h.props.setdefault("not_in", set()).update(opts)
+        c.facts.append(f"{tagstr(h.tag)} not in {opts}")
+        return None
+    h.props["value"] = opts[k]
+    c.facts.append(f"{tagstr(h.tag)}=={opts[k]!r}")
+    return opts[k]
+
+
 def contains(container, item):
     check_usable(container, item)
+    if isinstance(item, Hole) and isinstance(container, (list, tuple, set, frozenset, dict)) \
+            and all(isinstance(x, str) for x in container) and not (isinstance(container, (list, tuple)) and has_seg(container)):
+        return bind_hole(item, list(container)) is not None
     if isinstance(container, STRLIKE) and isinstance(item, str) and is_symstr(container):
         return t_contains(item, container)
     if isinstance(container, Opaque):
@@ -617,6 +641,12 @@ def str_method(obj, name, args, kwargs):
             out.append(to_str(a))
             out.append(p)
         return tcat(*out)
+    if name == "split" and len(args) == 1 and isinstance(args[0], str) and isinstance(obj, Hole):
+        # number of pieces is unknown (>= 1); pieces are unknown strings
+        n = z3.Int(f"pieces({tagstr(obj.tag)},{args[0]!r})")
+        ctx().assume(n >= 1)
+        return Opaque(("split", obj.tag, args[0]), list, len=lambda o: SInt(n), truthy=True,
+                      unpack=lambda o, k: [Hole((obj.tag, "piece", i), "str") for i in range(k)])
     if name == "startswith" and len(args) == 1 and isinstance(args[0], str) and len(args[0]) == 1:
         return t_edge_char_eq(obj, args[0], last=False)
     raise Unsupported(f"string method {name} on symbolic string")
